@@ -254,6 +254,37 @@ Fixpoint wf_fnb (f : fn) : bool :=
       && forallb (fun s => len_ok s) strs && len_ok strs
   end.
 
+(* ---------- references an instruction makes into its own function ---------- *)
+(* `new_bytecode_function` (vm/src/vm.rs:85) stores the decoded function as it is; nothing checks that the
+   indices its instructions carry exist.  The interpreter then indexes with them:
+     PushString k           function.strings[k]                     (thread.rs: index out of bounds)
+     MakeClosure/NewClosure function.inner_functions[function_index]
+     Jump/CJump t           `assert!(index < self.instructions.len())`
+   [refs_ok] is the check a loader needs for these three tables; [checked_decode] is the decoder with it. *)
+Definition instr_refs_ok (nstr nfn nins : N) (i : instr) : bool :=
+  match i with
+  | IPushString k => k <? nstr
+  | IMakeClosure fi _ => fi <? nfn
+  | INewClosure fi _ => fi <? nfn
+  | IJump t => t <? nins
+  | ICJump t => t <? nins
+  | _ => true
+  end.
+
+Definition nlen {A : Type} (l : list A) : N := N.of_nat (length l).
+
+Fixpoint refs_ok (f : fn) : bool :=
+  match f with
+  | Fn _ _ ins inner strs =>
+      forallb (instr_refs_ok (nlen strs) (nlen inner) (nlen ins)) ins && forallb refs_ok inner
+  end.
+
+Definition checked_decode (c : cfg) (bs : bytes) : option (fn * bytes) :=
+  match decode_fn c bs with
+  | Some (f, r) => if refs_ok f then Some (f, r) else None
+  | None => None
+  end.
+
 (* ---------- what the driver runs on a real skeleton ---------- *)
 (* every strict prefix at the given cut points must fail to decode (the round trip itself is
    compared structurally by the driver) *)
